@@ -305,6 +305,14 @@ def fixed_cases():
         kids = (call(d, 1000 + 10 * d, 2000 - 10 * d, o[d], o[11 - d], kids),)
     out.append({"klass": "any", "cfg": {"shape": "cyg", "trig": {}, "pattern": "simple"}, "reads": {1: ["pf"]},
                 "wcpu": True, "wvar": True, "pmu": False, "xforest": list(kids)})
+    # six nested entries, only the variable (resp. only the cpu) changes at every entry hook: the 5th and 6th change find
+    # the queue full and must not be forgotten: the first exit hook with a free slot reports the value
+    for wc_, wv_ in ((False, True), (True, False)):
+        kids = ()
+        for d in range(6, 0, -1):
+            kids = (call(d % 6, 1000 + 10 * d, 3000 - 10 * d, ob(cpu=d, var=0x5a5a0010 + d), ob(cpu=6, var=0x5a5a0016), kids),)
+        out.append({"klass": "any", "cfg": {"shape": "pg", "trig": {}, "pattern": "simple"}, "reads": {},
+                    "wcpu": wc_, "wvar": wv_, "pmu": False, "xforest": list(kids)})
     # hooks 1 ns apart: the first event (+1 ns) and the next entry event (-1 ns) collide
     xf = [call(0, 100, 200, ob(cpu=1), ob(cpu=4), [call(1, 101, 102, ob(cpu=2), ob(cpu=3))])]
     out.append({"klass": "any", "cfg": {"shape": "pg", "trig": {}, "pattern": "simple"}, "reads": {},
@@ -657,7 +665,7 @@ def inproc(ctx):
     rng = ctx.rng
     h = harness(ctx)
     cases = []
-    plan = [("plain", ctx.n(45, 700)), ("watch0", ctx.n(45, 700)), ("any", ctx.n(60, 1000))]
+    plan = [("plain", ctx.n(45, 500)), ("watch0", ctx.n(45, 500)), ("any", ctx.n(60, 700))]
     todo = fixed_cases() + [gen_case(rng, klass) for klass, n in plan for _ in range(n)]
     run_all(h, todo)
     for case in todo:
@@ -718,7 +726,7 @@ def threads(ctx):
     h = harness(ctx)
     cases = []
     mt = []
-    for it in range(ctx.n(8, 120)):
+    for it in range(ctx.n(8, 80)):
         nth = rng.choice([2, 3])
         klass = rng.choice(["watch0", "any"])
         base = gen_case(rng, klass)
@@ -867,7 +875,7 @@ def reader(ctx, cases):
     syms = D.default_syms(6) + [(WVAR_OFF, 8, "D", "wvar")]
     names = [x[3] for x in syms]
     pick = [c for c in cases if c["complete"] and hook_gaps_ok(c["evs"]) and not c.get("thread_script")
-            and any(it[0] == "E" for it in c["res"]["items"])][:ctx.n(20, 300)]
+            and any(it[0] == "E" for it in c["res"]["items"])][:ctx.n(20, 150)]
     nev = 0
     for ci, c in enumerate(pick):
         recs, exp_dump, exp_replay, depth = [], [], [], 0
@@ -988,7 +996,7 @@ def e2e(ctx):
     uft = os.path.join(objdir, "uftrace")
     work = os.path.join(ctx.scratch, "e2e")
     os.makedirs(work, exist_ok=True)
-    for pi in range(ctx.n(4, 16)):
+    for pi in range(ctx.n(4, 12)):
         method, cflags, rflags = E2E_METHODS[pi % 4] if pi < 4 else rng.choice(E2E_METHODS)
         fo = F.gen_shape(rng, 4, rng.choice([4, 8, 14]), 4)
         cnt = [0]
@@ -1305,6 +1313,37 @@ def regressions(ctx):
                       "got cpu events %r" % (cpus,), {"mode": "witness", "script": script, "env": env, "out": out[-12:]}, True)
 
 
+def regressions2(ctx):
+    """witnesses of the two defects repaired in the second extension round"""
+    h = harness(ctx)
+    # (4) --estimate-return: at the end of a thread a time-filtered open call must not drop the events of its caller
+    script = ["T 1", "VAL cpu 1", "CE 0 100", "VAL cpu 2", "CE 1 1000", "TIME 1010", "TEND"]
+    env = {"UFTRACE_ESTIMATE_RETURN": "1", "UFTRACE_WATCH": "cpu", "UFTRACE_THRESHOLD": "50"}
+    out, _ = run_script(h, script, env, 97)
+    st = parse_stream(out)
+    got = [(it[0], it[1]) + ((it[2], it[3][0]) if it[0] == "E" else (it[2], it[5])) for it in st]
+    ctx.case(key=("regression", "estimate-finish"), tags=["regression:estimate-finish-drops-caller-events"],
+             sample={"script": script, "stream": got})
+    if got != [("R", 100, 0, 0), ("E", 101, ID_CPU, 1), ("R", 1012, 1, 0)]:
+        ctx.violation("C17: --estimate-return, thread end with f0{f1} open, f1 below the time filter: expected ENTRY f0, "
+                      "watch:cpu=1, EXIT f0; got %r" % (got,), {"mode": "witness", "script": script, "env": env,
+                                                               "out": out[-10:]}, True)
+    # (5) a cpu change that finds the queue full is reported by the next hook with a free slot
+    script = []
+    for d in range(1, 7):
+        script += ["VAL cpu %d" % d, "E %d %d" % (d % 6, 1000 + 10 * d)]
+    script += ["X %d" % (2000 + 10 * d) for d in range(1, 7)] + ["DUMP"]
+    env = {"UFTRACE_WATCH": "cpu"}
+    out, _ = run_script(h, script, env, 98)
+    cpus = [it[3][0] for it in parse_stream(out) if it[0] == "E" and it[2] == ID_CPU]
+    ctx.case(key=("regression", "cpu-full"), tags=["regression:cpu-change-lost-when-queue-full"],
+             sample={"script": script, "cpu_events": cpus})
+    if cpus != [1, 2, 3, 4, 6]:
+        ctx.violation("C17: -W cpu, six nested entries with cpu 1..6: expected events 1,2,3,4 and (after the first record "
+                      "freed the queue) 6; got %r" % (cpus,), {"mode": "witness", "script": script, "env": env,
+                                                               "out": out[-14:]}, True)
+
+
 def regression_valgrind(ctx):
     """thorough tier: no invalid access / uninitialised use in the -W var path (197b449), memcheck on the real libmcount"""
     h = harness(ctx)
@@ -1450,6 +1489,7 @@ def run(ctx):
     coq.prove(ctx, "C17")
     build.get_build("plain", ctx.log)
     regressions(ctx)
+    regressions2(ctx)
     known(ctx)
     inproc(ctx)
     threads(ctx)
